@@ -27,18 +27,23 @@ meta['tests_with_patch'] = ot.strip()
 meta['confirmed'] = (rc0 == 0 and rc1 != 0 and '52 passed' in ot and meta['applies'])
 meta['demo_with_patch_tail'] = o1[-600:]
 # 2. against /repo: apply, run the checks, undo
-rc, o = run('git -C /repo apply %s/patch.diff' % out)
+scratch = '/tmp/seedrepo_%s_%s' % (prop, k)
+run('git -C /repo worktree remove --force %s' % scratch)
+run('git -C /repo worktree add --detach %s HEAD' % scratch)
+rc, o = run('git -C %s apply %s/patch.diff' % (scratch, out))
 meta['applies_to_repo_head'] = rc == 0
+meta['repo_head'] = run('git -C /repo rev-parse --short HEAD')[1].strip()
 results = {}
 if rc == 0:
   try:
     for p in [prop] + extra:
       t = time.time()
-      rcc, oc = run('python3-vt -m pyvc.cli check %s' % p, cwd='/verif')
+      rcc, oc = run('python3-vt -m pyvc.cli check %s --repo %s' % (p, scratch), cwd='/verif')
       results[p] = {'exit': rcc, 'wall_s': round(time.time() - t, 1),
                     'lines': [l for l in oc.split('\n') if l.startswith(('VIOLATION', 'UNDECIDED', 'OK', 'FAIL', '  failed'))][:12]}
   finally:
-    run('git -C /repo checkout -- .')
+    pass
+run('git -C /repo worktree remove --force %s' % scratch)
 meta['checks'] = results
 meta['detected'] = any(r['exit'] == 1 for r in results.values())
 meta['alarm'] = any(r['exit'] != 0 for r in results.values())
